@@ -197,6 +197,24 @@ theorem quantifier_spec (r : RE) (lo : Nat) (hi : Option Nat) (hle : ∀ m, hi =
     Matches (rep r lo hi) p w n ↔ ∃ k, lo ≤ k ∧ (∀ m, hi = some m → k ≤ m) ∧ Pow r k p w n :=
   rep_iff r lo hi hle p w n
 
+/-- the oracle used to check where a match may start: `prefixMatch r p w n` iff some prefix of
+`w` is in the language of `r` (in its context) -/
+theorem prefix_match_correct (r : RE) (p : Option Ch) (w : List Ch) (n : Option Ch) :
+    prefixMatch r p w n = true ↔ ∃ u v, w = u ++ v ∧ Matches r p u (ctxR v n) :=
+  prefixMatch_iff r p w n
+
+/-- `translate_pattern`'s multi-digit back-reference loop encodes, for every digit string and every
+number of groups opened so far, the F&O resolution: the longest prefix that does not exceed the
+group count is the group number, the remaining digits are literal characters -/
+theorem backref_resolution_eq_spec (digits : List Nat) (g : Nat) (hne : digits ≠ []) :
+    resolveM digits g = resolveS digits g :=
+  resolveM_eq_resolveS digits g hne
+
+/-- test on literals: `\10` after ten groups is group 10, after nine groups group 1 + literal `0`;
+`\123` after twelve groups is group 12 + literal `3` -/
+example : resolveM [1, 0] 10 = (10, []) ∧ resolveM [1, 0] 9 = (1, [0]) ∧ resolveM [1, 2, 3] 12 = (12, [3])
+    ∧ resolveS [1, 0] 10 = (10, []) ∧ resolveS [1, 1] 10 = (1, [1]) := by decide
+
 /-- test on literals: `^a(b|c)*$` with and without its anchors -/
 example : searchB (.cat (.anchor .bol) (.cat (.cls (· == 97)) (.cat (.star (.alt (.cls (· == 98)) (.cls (· == 99)))) (.anchor .eol)))) [97, 98, 99, 98] = true
     ∧ searchB (.cat (.anchor .bol) (.cls (· == 98))) [97, 98] = false
